@@ -49,10 +49,29 @@ def cases(tier, rng):
                     lines.append("cs %s ean %s" % (sizes(rng, 67), J.hx(d)))
                     break
     for _ in range(n):
-        t = c05.gen_markov(rng) if hasattr(c05, "gen_markov") else J.rand_text(rng, rng.randrange(1, 30))
+        t = J.rand_text(rng, rng.randrange(1, 30))
         if isinstance(t, str):
             t = t.encode("utf-8", "surrogatepass")
         lines.append("cs %s %s %s" % (sizes(rng, 100), rng.choice(["c128", "c128", "c128n"]), J.hx(t)))
+    # long Code 128 contents with high symbol values (the position-weighted sum grows to 102*80*81/2:
+    # any narrower accumulator than 19 bits shows here) and structured Markov texts up to the length limit
+    for L in list(range(20, 81, 3 if tier == "quick" else 1)):
+        for ch in (0x7A, 0x7F, 0x60, 0x5F):
+            lines.append("cs %s c128 %s" % (sizes(rng, 900), J.hx(bytes([ch]) * L)))
+    for _ in range(n // 2):
+        r = c05.markov(rng, rng.choice([30, 40, 50, 60, 70, 79, 80, rng.randrange(1, 81)]))
+        lines.append("cs %s %s %s" % (sizes(rng, 900), rng.choice(["c128", "c128", "c128n"]), c05.enc(r)))
+    # long Code 39 contents (the modulo-43 sum of up to 300 values of up to 42)
+    for L in (6, 7, 30, 50, 100, 200, 300):
+        for ch in "%+/Z0":
+            lines.append("cs %s c39 1 0 %s" % (sizes(rng, 2000), J.hx(ch * L)))
+        lines.append("cs %s c39 1 0 %s" % (sizes(rng, 2000), J.hx("".join(rng.choice("0123456789ABCDEFGHIJKLMNOPQRSTUVWXYZ-. $/+%") for _ in range(L)))))
+    # the same contract through the WithColor entry points (configurations): the scaled barcode of a
+    # coloured checksum barcode still reports the check value
+    base = [l for l in lines if l.startswith("cs ")]
+    for _ in range(n // 2):
+        l = rng.choice(base)
+        lines.append("csc %s %s" % (rng.choice(SCHEMES), l[3:]))
     for _ in range(n):
         full = rng.randrange(2)
         L = rng.choice([0, 1, 2, 3, 8, 20])
@@ -71,8 +90,13 @@ def nontrivial(line, out):
     return out.startswith("OK")
 
 
+SCHEMES = ["8", "16", "24", "32", "rgba", "nrgba", "cmyk", "gray", "inv", "mix1", "mix2", "mix3", "mix4"]
+
+
 def _split(line, out):
     t = line.split()
+    if t[0] == "csc":
+        t = ["cs"] + t[2:]
     enc = t[2:]
     desc, _, chain = out.partition(" | ")
     return t[1], enc, desc, chain.split()
@@ -128,6 +152,11 @@ def extra(rep, impl_exe, model_exe, rng, tier):
 def distribution(lines, outs):
     d = {}
     for l, o in zip(lines, outs):
-        k = l.split()[2] + ":" + ("ok" if o.startswith("OK") else "err") + ":rounds=%d" % (0 if l.split()[1] == "-" else l.split()[1].count(",") + 1)
+        t = l.split()
+        col = ""
+        if t[0] == "csc":
+            t = ["cs"] + t[2:]
+            col = ":withcolor"
+        k = t[2] + col + ":" + ("ok" if o.startswith("OK") else "err") + ":rounds=%d" % (0 if t[1] == "-" else t[1].count(",") + 1)
         d[k] = d.get(k, 0) + 1
     return d
